@@ -25,7 +25,21 @@ import (
 	"time"
 )
 
-const verifDir = "/verif"
+// verifDir is the root of the verification tree: $VERIF_DIR (set by bin/check from its own location), else the
+// parent of the directory holding this executable, else /verif.
+var verifDir = func() string {
+	if d := os.Getenv("VERIF_DIR"); d != "" {
+		return d
+	}
+	if exe, err := os.Executable(); err == nil {
+		if d := filepath.Dir(filepath.Dir(exe)); fileExists(filepath.Join(d, "hsim", "run.go")) {
+			return d
+		}
+	}
+	return "/verif"
+}()
+
+func fileExists(p string) bool { _, err := os.Stat(p); return err == nil }
 var repoDir = "/repo"
 
 var goBin = "/opt/veriftools/go1.26.8/bin/go"
